@@ -17,8 +17,12 @@ def to_iter(vm, m, v):
         t = vm.read_at(m, v.cell, v.path)
         if isinstance(t, Seq): return Iter([Ref(v.cell, v.path + (('i', k),)) for k in range(len(t.items))])
         if isinstance(t, (SliceRef, Iter)): return to_iter(vm, m, t)
+        if isinstance(t, Struct) and t.ty == 'HashMap':      # `for (k, v) in &map`: pairs of references, in the map's (unspecified) order
+            from .intrinsics import hm_order
+            return Iter([Struct((Ref(v.cell, v.path + (('f', 0), ('i', i), ('f', 0))), Ref(v.cell, v.path + (('f', 0), ('i', i), ('f', 1))))) for i in hm_order(t, len(t.f[0].items))])
         raise VMError('into_iter of ref to %r' % (t,))
     if isinstance(v, Seq): return Iter(v.items)          # Vec<T> / [T; N] by value
+    if isinstance(v, Struct) and v.ty == 'HashSet': return Iter(v.f[0].items)
     if isinstance(v, Struct) and v.ty == 'HashMap':
         from .intrinsics import hm_order
         return Iter([v.f[0].items[i] for i in hm_order(v, len(v.f[0].items))])
@@ -113,6 +117,12 @@ def dispatch(vm, m, c, args):
                         else: pairs.append(Struct((k, v.f[1])))
                     from .intrinsics import hm_new
                     res.append((m1, 'ret', hm_new(vm, pairs)))
+                elif n == 'collect' and re.search(r'collect::<(std::collections::)?HashSet<', c):
+                    seen = []
+                    for v in vals:
+                        k = deref_val(vm, m1, v)
+                        if not any(deref_val(vm, m1, x).s == k.s for x in seen): seen.append(v)
+                    res.append((m1, 'ret', Struct((Seq(seen),), 'HashSet')))
                 elif n == 'collect': res.append((m1, 'ret', Seq(vals)))
                 elif n == 'count': res.append((m1, 'ret', len(vals)))
                 elif n == 'sum':
